@@ -4,7 +4,7 @@
  * "join while running" are forced by the script and not left to chance.
  *
  * main script lines:
- *   keynew K F | keyfree K | new H J | go H S | waitst H S | ref H | unref H | join H
+ *   keynew K F | keyfree K | refchurn H K | new H J | go H S | waitst H S | ref H | unref H | join H
  *   tset K V | trepl K V | tget K | epoch
  *   T H: <op> ...     sub-script of thread H (before "new H"): tset K V | trepl K V | tget K | write V | exit C | ret
  * thread life: [gate 1] start event, ops in order, write, [gate 2] exit/ret
@@ -86,6 +86,8 @@ static void tls_op (int t, const char *op, int k, int v, long myval[]) {
 static volatile int ur_go, ur_ready; static int ur_h;
 static volatile int churn_go;
 static void *churn_fn (void *arg) { while (!__atomic_load_n (&churn_go, __ATOMIC_SEQ_CST)) sched_yield (); return arg; }
+static int rc_h;
+static void *refchurn_fn (void *arg) { int i; while (!__atomic_load_n (&churn_go, __ATOMIC_SEQ_CST)) sched_yield (); for (i = 0; i < 20000; i++) { p_uthread_ref (hd[rc_h]); p_uthread_unref (hd[rc_h]); } return arg; }
 static void *ur_fn (void *arg) {
 	int id = (int) (long) arg; double t0 = now ();
 	my_h = 20 + id; ensure_fp ();
@@ -159,6 +161,13 @@ int main (int argc, char **argv) {
 			while (__atomic_load_n (&ur_ready, __ATOMIC_SEQ_CST) < n && now () - t0 < 10.0) sched_yield ();
 			__atomic_store_n (&ur_go, 1, __ATOMIC_SEQ_CST);
 			for (k = 0; k < n; k++) pthread_join (ut[k], NULL);
+		}
+		else if (!strcmp (op, "refchurn")) {        /* refchurn H K: K raw threads each take and drop a reference of H 20000 times, together (not logged: the count is the same afterwards) */
+			pthread_t rt[8]; int k, n = b > 8 ? 8 : b;
+			rc_h = a; __atomic_store_n (&churn_go, 0, __ATOMIC_SEQ_CST);
+			for (k = 0; k < n; k++) if (pthread_create (&rt[k], NULL, refchurn_fn, NULL) != 0) { n = k; break; }
+			__atomic_store_n (&churn_go, 1, __ATOMIC_SEQ_CST);
+			for (k = 0; k < n; k++) pthread_join (rt[k], NULL);
 		}
 		else if (!strcmp (op, "churn")) {           /* churn N: N raw threads with 8 MB stacks alive together - pushes finished threads' stacks out of the C library's cache */
 			static pthread_t ct[128]; pthread_attr_t at; int k, n = a > 128 ? 128 : a;
